@@ -280,6 +280,10 @@ func suiteReuse(rn *runner, r *rng, tier string) {
 			case 3: // large and failing late (stage 2) / early (stage 1)
 				text = "[" + strings.Repeat("1,", 5000) + cr.pick([]string{"01]", "\"\x01\"]", "1}", "1"})
 				hist = append(hist, "F")
+			case 4: // below 8 KiB but several index buffers; stage 2 fails in the first, the last, or not at all
+				k1 := 800 + cr.intn(2400)
+				text = "[" + cr.pick([]string{"x,", "1,", "1,", "{}}", ""}) + strings.Repeat("1,", k1) + cr.pick([]string{"1]", "01]", "1}", "1]"})
+				hist = append(hist, "D")
 			default:
 				text = cr.doc(cfg)
 				hist = append(hist, "d")
@@ -312,6 +316,9 @@ func suiteReuse(rn *runner, r *rng, tier string) {
 			defaults[k] = dr.chance(1, 2)
 		}
 		var prev *simdjson.ParsedJson
+		// by value: the caller keeps a copy of the ParsedJson struct and passes its address; unlike the returned
+		// pointer it still refers to the internal parser state after a failed call, so failures are part of the history
+		byval := dr.chance(1, 2)
 		for k, op := range tc.ops {
 			if strings.HasPrefix(op, "parse ") {
 				nextParse.reuse = prev
@@ -319,7 +326,15 @@ func suiteReuse(rn *runner, r *rng, tier string) {
 			}
 			tc.impl[k] = st.execTimed(op, 30*time.Second)
 			if strings.HasPrefix(op, "parse ") && strings.HasPrefix(tc.impl[k], "ok") {
-				prev = st.pjs[strings.Fields(op)[1]]
+				pj := st.pjs[strings.Fields(op)[1]]
+				if byval {
+					if prev == nil || dr.chance(1, 3) {
+						h := *pj
+						prev = &h
+					}
+				} else {
+					prev = pj
+				}
 			}
 		}
 		// property oracle: the same calls on fresh objects (no reuse argument, fresh destinations) — C15 demands the
@@ -409,7 +424,7 @@ func suiteAlias(rn *runner, r *rng, tier string) {
 		cloneKind := cr.intn(4)
 		switch cloneKind {
 		case 2:
-			c.emit("parse cd 0 1 " + hx([]byte("[\"" + strings.Repeat("destination buffer ", 40) + "\"]")))
+			c.emit("parse cd 0 1 " + hx([]byte("[\""+strings.Repeat("destination buffer ", 40)+"\"]")))
 		case 3:
 			c.emit("parse cd 0 1 " + hx([]byte("[\"d\"]")))
 		}
